@@ -201,6 +201,45 @@ func checkMapOrder(c *Ctx, p *core.Prog, matchFn *ssa.Function, explored []*ssa.
 		c.R.OK("R04.4", key, p.Pos(mr.Range.Pos()), d)
 	}
 	c.R.RequireMin("R04.4", "map ranges in the Match tree", len(oa.Ranges), 3)
+	// a loop over a map that can be left early looks at the entries "up to the first one that ...": which entry that is
+	// depends on the iteration order. Only an exit that returns constants (an existence test: the answer is the same
+	// whichever matching entry comes first) is independent of it.
+	nEarly := 0
+	for _, fn := range explored {
+		if !core.InRepo(fn) || isTraceFn(fn) {
+			continue
+		}
+		for _, rl := range rangeLoopsOf(fn) {
+			if _, isMap := rl.over.Type().Underlying().(*types.Map); !isMap {
+				continue
+			}
+			loop := naturalLoop(rl.header)
+			bad := ""
+			for _, b := range fn.Blocks {
+				if !loop[b] || b == rl.header {
+					continue
+				}
+				last := b.Instrs[len(b.Instrs)-1]
+				for _, sc := range b.Succs {
+					if loop[sc] {
+						continue
+					}
+					nEarly++
+					if !returnsConstOnly(sc) {
+						bad = p.Pos(last.Pos())
+						if bad == "-" {
+							bad = p.Pos(sc.Instrs[0].Pos())
+						}
+					}
+				}
+			}
+			if bad != "" {
+				c.R.Fail("R04.4", "map range left early: "+core.ShortFn(fn)+": range over "+core.TypeName(rl.over.Type()), p.Pos(rl.header.Instrs[0].Pos()),
+					"the loop over the map can be left before all entries were seen (at "+bad+") with something else than a constant verdict: what happens depends on which entry the iteration yields first, and that order changes from run to run")
+			}
+		}
+	}
+	c.R.Count("R04.4:early exits from map ranges examined", nEarly)
 	for _, s := range oa.Sorts {
 		key := "sort in " + core.ShortFn(s.Fn) + " of " + describeSorted(s)
 		d := ""
@@ -222,6 +261,54 @@ func checkMapOrder(c *Ctx, p *core.Prog, matchFn *ssa.Function, explored []*ssa.
 		c.R.OK("R04.4", "no order-tainted value reaches the result of "+core.ShortFn(matchFn), p.Pos(matchFn.Pos()), "every slice filled under map iteration is totally sorted before its order is observed")
 	}
 
+}
+
+// naturalLoop: the blocks of the natural loop with this header (the header and everything that reaches a back edge
+// without passing the header).
+func naturalLoop(header *ssa.BasicBlock) map[*ssa.BasicBlock]bool {
+	loop := map[*ssa.BasicBlock]bool{header: true}
+	var lw []*ssa.BasicBlock
+	for _, pr := range header.Preds {
+		if header.Dominates(pr) {
+			lw = append(lw, pr)
+		}
+	}
+	for len(lw) > 0 {
+		b := lw[len(lw)-1]
+		lw = lw[:len(lw)-1]
+		if loop[b] {
+			continue
+		}
+		loop[b] = true
+		lw = append(lw, b.Preds...)
+	}
+	return loop
+}
+
+// returnsConstOnly: block b (reached by leaving a loop) does nothing but return constants.
+func returnsConstOnly(b *ssa.BasicBlock) bool {
+	for k := 0; k < 3; k++ {
+		if len(b.Instrs) == 1 {
+			if _, isJ := b.Instrs[0].(*ssa.Jump); isJ {
+				b = b.Succs[0]
+				continue
+			}
+		}
+		break
+	}
+	if len(b.Instrs) != 1 {
+		return false
+	}
+	ret, ok := b.Instrs[0].(*ssa.Return)
+	if !ok {
+		return false
+	}
+	for _, r := range ret.Results {
+		if _, isC := r.(*ssa.Const); !isC {
+			return false
+		}
+	}
+	return true
 }
 
 // checkNoConstantResults: R04.9. The copyright notices and the number of input lines come from the input alone. A
@@ -441,6 +528,17 @@ func checkNondet(c *Ctx, p *core.Prog, e *eng.Explorer) {
 				continue
 			}
 			nSites++
+			// R04.11: the diff's line mode is off. In line mode go-diff first splits both sides at the rune '\n' (10) - here
+			// the token id 10, whichever word was interned tenth - so the diff, and the confidence, depend on the order in
+			// which the corpus documents were added.
+			if args := call.Common().Args; len(args) >= 4 {
+				last := args[len(args)-1]
+				if isBool(last.Type()) {
+					cst, isC := last.(*ssa.Const)
+					c.R.Check(isC && cst.Value != nil && cst.Value.String() == "false", "R04.11", core.ShortFn(fn)+": the word diff runs with go-diff's line mode switched off", p.Pos(call.Pos()),
+						"checklines is the constant false", "checklines is not the constant false: go-diff splits the token runes at rune 10, which is whatever word got token id 10 - results depend on the insertion order of the corpus")
+				}
+			}
 			recv := call.Common().Args[0]
 			key := "the word diff (" + strings.TrimPrefix(n, "(*"+core.DiffPkg+".DiffMatchPatch).") + ") runs under a wall-clock DiffTimeout"
 			if ns, explicit := explicitTimeout(recv, call); explicit && ns > 0 {
